@@ -45,7 +45,15 @@ def strip_comments(src):
 # Lean side
 
 def theorem_names(prop):
-    """fully qualified names of every `theorem` in Props/CXX.lean (tracks namespace / end)"""
+    """fully qualified names of every `theorem` in Props/CXX.lean and in the property's additional property files
+    (cfg["extra_props"], e.g. the model-to-model ties); tracks namespace / end"""
+    names = []
+    for f in [prop] + list(PROPS.PROPS.get(prop, {}).get("extra_props", [])):
+        names += _theorem_names_of(f)
+    return names
+
+
+def _theorem_names_of(prop):
     path = os.path.join(LEAN, "AskarModel", "Props", f"{prop}.lean")
     src = strip_comments(open(path).read())
     stack, names = [], []
@@ -75,7 +83,8 @@ def lean_check(prop, thorough, log):
         global MODEL_BIN
         exe = model_exe(prop)
         MODEL_BIN = os.path.join(LEAN, ".lake", "build", "bin", exe)
-        rc, out, err = run(["lake", "build", mod, exe], cwd=LEAN, timeout=3000)
+        extra_mods = [f"AskarModel.Props.{x}" for x in PROPS.PROPS.get(prop, {}).get("extra_props", [])]
+        rc, out, err = run(["lake", "build", mod] + extra_mods + [exe], cwd=LEAN, timeout=3000)
         log.write(out + err)
         names = theorem_names(prop)
         if rc != 0:
@@ -96,6 +105,8 @@ def lean_check(prop, thorough, log):
         audit = os.path.join(audit_dir, f"{prop}.lean")
         with open(audit, "w") as fh:
             fh.write(f"import {mod}\n")
+            for em in extra_mods:
+                fh.write(f"import {em}\n")
             for n in names:
                 fh.write(f"#print axioms {n}\n")
         rc, out, err = run(["lake", "env", "lean", audit], cwd=LEAN, timeout=1200)
